@@ -28,6 +28,7 @@ func runC13(c *Ctx) {
 	wholeSliceFromStream(c, c.P, "R4", "transports/obfs3:(*obfs3Conn).Read")
 	obfs3RewireOnAnyRead(c, c.P, "R4")
 	obfs3PaddingLimitOnIndex(c, c.P, "R4")
+	clearedOnlyOnSuccess(c, c.P, "R4", "transports/obfs3.obfs3Conn", "rxMagic", "transports/obfs3:(*obfs3Conn).Read", "findPeerMagic", "a Read after a failed scan must fail again, not hand out the junk that was buffered")
 	noBackgroundConnWrites(c, c.P, newConnIO(c.P), "R4", "transports/obfs3")
 	if !importing {
 		importObls(c, "C10", runC10, "X10", func(k string) bool { return containsAny(k, "transports/obfs3", "common/uniformdh") })
